@@ -472,7 +472,7 @@ func legacyStream(c *Case, layout string) ([]byte, error) {
 		for i, p := range c.Vals {
 			vals[i] = s.ref([]byte(p))
 		}
-		b, _, err := writeOld(c.keys(), vals, layout, "")
+		b, _, err := writeOld(c.keys(), vals, layout, string(c.Ver))
 		return b, err
 	}
 	fresh, err := c.build()
